@@ -17,8 +17,9 @@ LABEL = ('full on the model for the single-attempt / single-live-connection inva
          'reconnection; partial (with refutation witnesses replayed on the code) for "close() terminates every '
          'call in flight" (D6, and calls still connecting) and for "no call starts on a dead connection" '
          '(connection dies between completion of the attempt and resumption of the connecting task)')
-TRUSTED = ['tools/facts_C16.py (ast.unparse text of the 11 transcribed functions -> Gen/FactsC16.v; theorem '
-           'C16_source_as_transcribed compares it with the text the model was written from)',
+TRUSTED = ['tools/facts_C16.py + tools/pynorm.py (control paths of Channel.__connect__ after helper inlining / NNF / '
+           'early-exit normalisation; probes of real grpclib objects over a fake transport -> Gen/FactsC16.v; theorem '
+           'C16_source_as_transcribed compares them with what the model assumes)',
            'modelled, not verified: asyncio.Lock (CPython 3.12.1 acquire/release/_wake_up_first), Task.cancel, '
            'Event.set wake order, call_soon FIFO; loop.create_connection replaced by a scripted connector that '
            'builds the in-memory transport, calls connection_made and closes the transport when the waiting '
